@@ -24,7 +24,8 @@ pub struct Step {
     /// 0 extend the game by `picks`; 1 take back `back` plies then extend; 2 play a-b-a-b shuffles
     /// (repetition pattern) then search; 3 jump to another root (other game, same table);
     /// 4 ucinewgame (table cleared) then extend; 5 forced cycle (perpetual check) then search;
-    /// 6 search the parent of a dead position, then the dead position; 7 stopped search, then its cached descendants
+    /// 6 search the parent of a dead position, then the dead position; 7 stopped search, then its cached descendants;
+    /// 8 deep search of a generated mating-attack root, then its cached descendants
     pub nav: u8,
     pub back: u8,
     pub picks: Vec<Pick>,
@@ -61,7 +62,7 @@ pub const MATE_ROOTS: &[&str] = &[
 ];
 
 fn step_strategy() -> impl Strategy<Value = Step> {
-    let nav = prop_oneof![5 => Just(0u8), 3 => Just(1u8), 2 => Just(2u8), 1 => Just(3u8), 1 => Just(4u8), 1 => Just(5u8), 1 => Just(6u8), 2 => Just(7u8)];
+    let nav = prop_oneof![5 => Just(0u8), 3 => Just(1u8), 2 => Just(2u8), 1 => Just(3u8), 1 => Just(4u8), 1 => Just(5u8), 1 => Just(6u8), 2 => Just(7u8), 2 => Just(8u8)];
     (nav, 0u8..4, vec(pick_strategy(), 0..4), any::<u16>(), prop_oneof![2 => 1u8..3, 3 => 3u8..5, 1 => 5u8..6]).prop_map(|(nav, back, picks, root, depth)| Step { nav, back, picks, root, depth })
 }
 
@@ -137,6 +138,42 @@ impl Line {
             self.moves.extend([a, b, back_a, back_b]);
         }
     }
+}
+
+/// A sane K+Q (+R) v K (+P) position with the stronger side to move, derived from two generated numbers
+fn mating_root(seed: u16, salt: u8) -> Option<Pos> {
+    let mut x = mix(seed as u64 * 257 + salt as u64);
+    for _ in 0..20 {
+        let mut next = |n: u64| {
+            x = mix(x);
+            ((x >> 20) % n) as usize
+        };
+        let mut b = [b'.'; 64];
+        let (wk, bk, q) = (next(64), next(64), next(64));
+        if wk == bk || q == wk || q == bk {
+            continue;
+        }
+        b[wk] = b'K';
+        b[bk] = b'k';
+        b[q] = b'Q';
+        if next(2) == 0 {
+            let r = next(64);
+            if b[r] == b'.' {
+                b[r] = b'R';
+            }
+        }
+        if next(3) == 0 {
+            let s = 8 + next(40);
+            if b[s] == b'.' {
+                b[s] = b'p';
+            }
+        }
+        let p = Pos { b, white: true, cr: [false; 4], ep: None };
+        if p.sane() && !p.legal().is_empty() {
+            return Some(if next(2) == 0 { p } else { p.mirror() });
+        }
+    }
+    None
 }
 
 fn engine_game(line: &Line) -> Result<Game, Fail> {
@@ -241,7 +278,9 @@ impl Hist {
         for (i, st) in case.steps.iter().enumerate() {
             let mut repetition = false;
             let mut stop_after: Option<i64> = None;
-            match st.nav % 8 {
+            // depth of the search that precedes the probing of cached descendants (None: depth + 2, at most 5)
+            let mut deep: Option<u8> = None;
+            match st.nav % 9 {
                 0 => line.extend(&st.picks),
                 1 => {
                     let k = (st.back as usize).min(line.moves.len());
@@ -315,6 +354,20 @@ impl Hist {
                     line.extend(&st.picks);
                     stop_after = Some((st.root % 160) as i64);
                 }
+                8 if sess.is_none() => {
+                    // mating attack: a generated K+Q(+R) v K(+P) root is searched to depth 5-7 (not stopped); afterwards every
+                    // cached child and grandchild - positions the mate search visited off its principal line - is
+                    // searched as a root of its own with the table that search left
+                    if let Some(root) = mating_root(st.root, st.back) {
+                        line = Line { start: root, moves: Vec::new() };
+                        stop_after = Some(-1);
+                        deep = Some(5 + st.back % 3);
+                        ev.class("mating_attack_roots");
+                    } else {
+                        line.extend(&st.picks);
+                    }
+                }
+                8 => line.extend(&st.picks),
                 _ => {
                     table.clear();
                     if let Some(s) = sess.as_mut() {
@@ -339,18 +392,29 @@ impl Hist {
                         // a search of this position that is STOPPED after n node-entry polls also leaves entries
                         // behind; afterwards every cached child / grandchild is searched as a root of its own
                         srch::hooks::reset(n, false);
-                        let out = srch::run_search(&g, &mut table, Some((depth + 2).min(5)), 30_000);
+                        let out = srch::run_search(&g, &mut table, Some(deep.unwrap_or((depth + 2).min(5))), 30_000);
                         srch::hooks::reset(-1, false);
                         if let Some(pn) = out.panicked {
                             return Err(Fail::new("panic", format!("stopped search {} ({}): {}", i, history_text, pn)));
                         }
-                        ev.class("stopped_searches_in_histories");
+                        ev.class(if n >= 0 { "stopped_searches_in_histories" } else { "deep_mate_searches_in_histories" });
+                        let max_probes = if n >= 0 { 10 } else { 150 };
                         let mut probes = 0;
                         'probe: for m1 in p.legal() {
                             let q1 = p.make(m1);
                             let mut cands = vec![(vec![m1], q1.clone())];
-                            for m2 in q1.legal().into_iter().take(6) {
-                                cands.push((vec![m1, m2], q1.make(m2)));
+                            if n >= 0 {
+                                for m2 in q1.legal().into_iter().take(6) {
+                                    cands.push((vec![m1, m2], q1.make(m2)));
+                                }
+                            } else {
+                                // after a mate search: the nodes where the DEFENDER is to move, one and three plies down
+                                for m2 in q1.legal() {
+                                    let q2 = q1.make(m2);
+                                    for m3 in q2.legal() {
+                                        cands.push((vec![m1, m2, m3], q2.make(m3)));
+                                    }
+                                }
                             }
                             for (path, q) in cands {
                                 let mut l2 = Line { start: line.start.clone(), moves: line.moves.clone() };
@@ -361,13 +425,14 @@ impl Hist {
                                 }
                                 probes += 1;
                                 let d2 = 1 + (probes % 3) as u8;
-                                let text2 = format!("(after a search of {} stopped at poll {}) position fen {} moves {}", history_text, n, l2.start.fen6(), moves_text(&l2.moves));
+                                let how = if n >= 0 { format!("stopped at poll {}", n) } else { format!("to depth {}", deep.unwrap_or(0)) };
+                                let text2 = format!("(after a search of {} {}) position fen {} moves {}", history_text, how, l2.start.fen6(), moves_text(&l2.moves));
                                 let o2 = srch::run_search(&g2, &mut table, Some(d2), 30_000);
                                 if let Some(pn) = o2.panicked {
                                     return Err(Fail::new("panic", format!("{} : {}", text2, pn)));
                                 }
                                 self.judge_search(&q, &text2, d2, &o2.best, &o2.lines, true, false, i, ev)?;
-                                if probes >= 10 {
+                                if probes >= max_probes {
                                     break 'probe;
                                 }
                             }
@@ -481,7 +546,7 @@ impl Prop for Hist {
     }
 
     fn rule(&self) -> String {
-        let common = "Cases (stateful): a start position and 1-8 steps; each step navigates the game (extend by generated picks / take back 0-3 plies and extend / add an a-b-a-b shuffle so that the repetition filter triggers / jump to another curated root / ucinewgame / a forced four-ply cycle (perpetual check) so that the root has a single legal move which is also the move the repetition filter removes / search the parent of a mating or stalemating move to depth 3-5 and then the dead position itself / a search STOPPED by the hook after 0-159 polls followed by searches of every cached child and grandchild as roots of their own) and then searches the reached position to depth 1-5, all steps sharing ONE transposition table, in-process (get_best_move_until_stop on a game built with push_history) or, for about 1 history in 6, through the real binary (`position fen … moves …`, `go depth d`, `wait`). ";
+        let common = "Cases (stateful): a start position and 1-8 steps; each step navigates the game (extend by generated picks / take back 0-3 plies and extend / add an a-b-a-b shuffle so that the repetition filter triggers / jump to another curated root / ucinewgame / a forced four-ply cycle (perpetual check) so that the root has a single legal move which is also the move the repetition filter removes / search the parent of a mating or stalemating move to depth 3-5 and then the dead position itself / a search STOPPED by the hook after 0-159 polls followed by searches of every cached child and grandchild as roots of their own / a generated K+Q(+R) v K(+P) root searched to depth 5-7 followed by searches of up to 150 cached positions one and three plies further down - where the defender is to move and which the mate search visited off its principal line) and then searches the reached position to depth 1-5, all steps sharing ONE transposition table, in-process (get_best_move_until_stop on a game built with push_history) or, for about 1 history in 6, through the real binary (`position fen … moves …`, `go depth d`, `wait`). ";
         match self.which {
             Which::C06 => format!("{}Oracle: the announced move is a legal move of the reference model's position; no move is announced iff the model has no legal move. evaluations = searches judged. Non-trivial search: the table already held an entry for the root when the search started, or the root has 1-2 legal moves, or a repetition pattern is present in the game record; distinct by (history, depth).", common),
             Which::C18 => format!("{}Oracle: every `info pv m1 … mk` line printed during a search of position P replays in the reference model: m1 legal in P, m2 legal in P·m1, … Every tier also searches (depth 4 and 5, fresh table) the roots among 120 000 (thorough 1.5 million) themed promotion constructions in which every key of the forced mate in two is an under-promotion, so that printed lines start with a promotion to knight, bishop or rook and go on from the promoted piece. evaluations = pv lines judged. Non-trivial line: k >= 2 and the table held entries from an earlier search; distinct by (position, line).", common),
